@@ -428,7 +428,6 @@ Section Cache.
 End Cache.
 
 (* ---- the code before the fix: a stale answer inside one run ---- *)
-Local Open Scope Qc_scope.
 Definition ex_truth : calendar :=
   fun x => if ((18995 <=? x) && (x <=? 19011) && negb (Z.modulo (x + 4) 7 =? 6) && negb (Z.modulo (x + 4) 7 =? 0))%Z
            then Some (Qcfrac (12000 + x) 10000) else None.
@@ -714,3 +713,202 @@ Section RowsMachine.
     destruct (load_rows_ref (effective_ref (rem truth avail) today) rs); reflexivity.
   Qed.
 End RowsMachine.
+
+(* ---- C12 on the loader: a fresh loader over an empty cache ---- *)
+Lemma obs_in_ext p q : (forall x, p x = q x) -> forall n from, obs_in p from n = obs_in q from n.
+Proof.
+  intros H. induction n as [| k IH]; intros from; cbn [obs_in]; [reflexivity | ].
+  rewrite H, IH. reflexivity.
+Qed.
+
+Lemma exact_ref_ext rem1 rem2 today d :
+  (forall y, rem1 y = rem2 y) -> exact_ref rem1 today d = exact_ref rem2 today d.
+Proof. intros H. unfold exact_ref, refmap. rewrite H. reflexivity. Qed.
+Lemma lookback_ref_ext rem1 rem2 today :
+  (forall y, rem1 y = rem2 y) -> forall n d, lookback_ref rem1 today n d = lookback_ref rem2 today n d.
+Proof.
+  intros H. induction n as [| k IH]; intros d; cbn [lookback_ref]; [reflexivity | ].
+  rewrite (exact_ref_ext rem1 rem2 today (d - 1) H), IH. reflexivity.
+Qed.
+Lemma effective_ref_ext rem1 rem2 today d :
+  (forall y, rem1 y = rem2 y) -> effective_ref rem1 today d = effective_ref rem2 today d.
+Proof.
+  intros H. unfold effective_ref.
+  rewrite (exact_ref_ext rem1 rem2 today d H), (lookback_ref_ext rem1 rem2 today H). reflexivity.
+Qed.
+
+Section Fresh.
+  Variable pub : calendar.
+  Variable e : env.
+  (* what the remote returns parses to the published rates of the year *)
+  Hypothesis remote_pub : forall y, parse_all (e_remote e y) = Ok (pubrates pub y).
+  (* nothing is published for a day after today *)
+  Hypothesis pub_past : forall x, pub x <> None -> x <= e_today e.
+
+  Lemma restrict_today x : restrict pub (e_today e + 1) x = pub x.
+  Proof.
+    unfold restrict. destruct (x <? e_today e + 1) eqn:E; [reflexivity | ].
+    apply Z.ltb_ge in E. destruct (pub x) eqn:P; [ | reflexivity ].
+    assert (x <= e_today e) by (apply pub_past; congruence). lia.
+  Qed.
+
+  Lemma rem_today y : rem pub (e_today e + 1) y = pubrates pub y.
+  Proof. unfold rem, pubrates. apply obs_in_ext. exact restrict_today. Qed.
+
+  Lemma fresh_run_ok : run_ok pub (e_today e) (e_today e + 1) e.
+  Proof.
+    split; [reflexivity | ]. split; [lia | ]. intros y. rewrite rem_today. apply remote_pub.
+  Qed.
+
+  Lemma fresh_Inv : Inv pub (e_today e) (e_today e + 1) empty_st.
+  Proof. apply (Inv_new_run pub _ _ empty_st), CacheOk_nil. Qed.
+
+  Lemma fresh_effective d :
+    exists s', effective true e empty_st d = Ok (s', effective_ref (pubrates pub) (e_today e) d).
+  Proof.
+    destruct (effective_step pub _ _ e empty_st d fresh_run_ok fresh_Inv) as (s' & E & _).
+    exists s'. rewrite E.
+    rewrite (effective_ref_ext (rem pub (e_today e + 1)) (pubrates pub) (e_today e) d rem_today).
+    reflexivity.
+  Qed.
+
+  Hypothesis pub_nonzero : forall x, pub x <> Some 0%Qc.
+
+  Lemma fresh_lookup_rule d :
+    exists s' a,
+      effective true e empty_st d = Ok (s', a) /\
+      match a with
+      | inr (x, r) => rule_ok pub (e_today e) d x r
+      | inl LNotYet => rule_not_yet pub (e_today e) d
+      | inl LNone7 => rule_none7 pub (e_today e) d
+      | inl _ => False
+      end.
+  Proof.
+    destruct (fresh_effective d) as (s' & E).
+    exists s', (effective_ref (pubrates pub) (e_today e) d). split; [exact E | ].
+    apply effective_ref_rule; assumption.
+  Qed.
+
+  Lemma fresh_never d s' x r :
+    effective true e empty_st d = Ok (s', inr (x, r)) ->
+    x <= d /\ d - 7 <= x /\ r <> 0%Qc /\ pub x = Some r.
+  Proof.
+    intros E. destruct (fresh_lookup_rule d) as (s1 & a & E1 & Ha).
+    rewrite E in E1. inversion E1; subst a s1. destruct Ha as (_ & Hx & Hp & _).
+    repeat split; try lia; [ | exact Hp ].
+    intros ->. exact (pub_nonzero x Hp).
+  Qed.
+
+  Lemma fresh_error_iff d s' a :
+    effective true e empty_st d = Ok (s', a) ->
+    ((exists err, a = inl err) <-> ~ exists x r, rule_ok pub (e_today e) d x r).
+  Proof.
+    intros E. destruct (fresh_lookup_rule d) as (s1 & a1 & E1 & Ha).
+    rewrite E in E1. inversion E1; subst a1 s1. split.
+    - intros [err ->] (x & r & Hok). destruct (rule_ok_not_error _ _ _ _ _ Hok) as [N1 N2].
+      destruct err; try contradiction.
+    - intros N. destruct a as [err | [x r]]; [eauto | ]. exfalso. apply N. eauto.
+  Qed.
+
+  (* rows of a file through the application path *)
+  Lemma fresh_rows rs l :
+    app_rows true e rs = Ok (inr l) ->
+    forall i r tx cm, nth_error rs i = Some r -> nth_error l i = Some (tx, cm) ->
+      (r_cur r = Some USD -> r_fx r = None -> exists x, rule_ok pub (e_today e) (r_td r) x tx) /\
+      (r_ccur r = Some USD -> r_cfx r = None -> exists x, rule_ok pub (e_today e) (r_td r) x cm) /\
+      (forall q, r_fx r = Some q -> tx = q) /\
+      (forall q, r_cfx r = Some q -> cm = q) /\
+      (r_cur r = Some CAD -> tx = 1%Qc) /\ (r_ccur r = Some CAD -> cm = 1%Qc) /\
+      (r_cur r = None -> r_fx r = None -> tx = 1%Qc) /\
+      (r_ccur r = None -> r_cfx r = None -> cm = tx).
+  Proof.
+    intros E i r tx cm Hr Hl.
+    rewrite (app_rows_eq pub _ _ e rs fresh_run_ok) in E. inversion E as [E']. clear E.
+    destruct (app_rows_ref_spec _ rs l E' i r tx cm Hr Hl) as (P1 & P2 & P3 & P4 & P5 & P6).
+    assert (Hrule : forall td x q,
+               effective_ref (rem pub (e_today e + 1)) (e_today e) td = inr (x, q) ->
+               rule_ok pub (e_today e) td x q).
+    { intros td x q Ha. rewrite (effective_ref_ext _ (pubrates pub) _ _ rem_today) in Ha.
+      pose proof (effective_ref_rule pub (e_today e) pub_past pub_nonzero td) as Hr'.
+      rewrite Ha in Hr'. exact Hr'. }
+    unfold pair_ok in P1, P2.
+    repeat split.
+    - intros Hc Hf. rewrite Hc, Hf in P1. destruct P1 as (x & q & Ha & Hq). inversion Hq; subst q. eauto.
+    - intros Hc Hf. rewrite Hc, Hf in P2. destruct P2 as (x & q & Ha & Hq). inversion Hq; subst q. eauto.
+    - intros q Hf. rewrite Hf in P1. destruct (r_cur r); inversion P1; reflexivity.
+    - intros q Hf. rewrite Hf in P2. destruct (r_ccur r); inversion P2; reflexivity.
+    - intros Hc. rewrite Hc in P1. destruct (r_fx r) as [q |] eqn:Hf.
+      + inversion P1; subst q.
+        (* an explicit rate on a CAD row is only accepted when it is 1 *)
+        clear - E' Hr Hl Hc Hf.
+        revert i l E' Hr Hl. induction rs as [| r0 t IH]; intros i l E' Hr Hl; [destruct i; discriminate | ].
+        unfold app_rows_ref in E'. cbn [load_rows_ref] in E'.
+        destruct (load_one_ref _ (r_td r0) (r_cur r0) (r_fx r0)) as [e1 | fx'] eqn:E1; [discriminate | ].
+        destruct (load_one_ref _ (r_td r0) (r_ccur r0) (r_cfx r0)) as [e2 | cfx'] eqn:E2; [discriminate | ].
+        destruct (load_rows_ref _ t) as [e3 | lt] eqn:E3; [discriminate | ].
+        cbn [rows_rates] in E'.
+        destruct (row_rates {| r_td := r_td r0; r_cur := r_cur r0; r_fx := fx'; r_ccur := r_ccur r0; r_cfx := cfx' |})
+          as [e4 | [tx0 cm0]] eqn:E4; [discriminate | ].
+        destruct (rows_rates lt) as [e5 | l5] eqn:E5; [discriminate | ].
+        inversion E'; subst l. destruct i as [| j]; cbn [nth_error] in Hr, Hl.
+        * inversion Hr; subst r0. inversion Hl; subst tx0 cm0.
+          unfold load_one_ref, load_decide in E1. rewrite Hf in E1. inversion E1; subst fx'.
+          unfold row_rates in E4. cbn [r_cur r_fx r_ccur r_cfx] in E4. rewrite Hc in E4.
+          unfold valid_rate in E4.
+          destruct (Qcltb 0%Qc tx); [ | discriminate ].
+          cbn [is_default andb] in E4.
+          destruct (Qceqb_spec tx 1%Qc) as [Eq | Ne]; [exact Eq | discriminate].
+        * eapply (IH j l5); [ | exact Hr | exact Hl ]. unfold app_rows_ref. rewrite E3. exact E5.
+      + inversion P1. reflexivity.
+    - intros Hc. rewrite Hc in P2. destruct (r_cfx r) as [q |] eqn:Hf.
+      + inversion P2; subst q.
+        clear - E' Hr Hl Hc Hf.
+        revert i l E' Hr Hl. induction rs as [| r0 t IH]; intros i l E' Hr Hl; [destruct i; discriminate | ].
+        unfold app_rows_ref in E'. cbn [load_rows_ref] in E'.
+        destruct (load_one_ref _ (r_td r0) (r_cur r0) (r_fx r0)) as [e1 | fx'] eqn:E1; [discriminate | ].
+        destruct (load_one_ref _ (r_td r0) (r_ccur r0) (r_cfx r0)) as [e2 | cfx'] eqn:E2; [discriminate | ].
+        destruct (load_rows_ref _ t) as [e3 | lt] eqn:E3; [discriminate | ].
+        cbn [rows_rates] in E'.
+        destruct (row_rates {| r_td := r_td r0; r_cur := r_cur r0; r_fx := fx'; r_ccur := r_ccur r0; r_cfx := cfx' |})
+          as [e4 | [tx0 cm0]] eqn:E4; [discriminate | ].
+        destruct (rows_rates lt) as [e5 | l5] eqn:E5; [discriminate | ].
+        inversion E'; subst l. destruct i as [| j]; cbn [nth_error] in Hr, Hl.
+        * inversion Hr; subst r0. inversion Hl; subst tx0 cm0.
+          unfold load_one_ref, load_decide in E2. rewrite Hf in E2. inversion E2; subst cfx'.
+          unfold row_rates in E4. cbn [r_cur r_fx r_ccur r_cfx] in E4. rewrite Hc in E4.
+          destruct (valid_rate (r_cur r) fx') as [e6 | v1]; [discriminate | ].
+          unfold valid_rate in E4.
+          destruct (Qcltb 0%Qc cm); [ | discriminate ].
+          cbn [is_default andb] in E4.
+          destruct (Qceqb_spec cm 1%Qc) as [Eq | Ne]; [exact Eq | discriminate].
+        * eapply (IH j l5); [ | exact Hr | exact Hl ]. unfold app_rows_ref. rewrite E3. exact E5.
+      + inversion P2. reflexivity.
+    - exact P3.
+    - exact P4.
+  Qed.
+End Fresh.
+
+Lemma c12_example :
+  let pub := restrict ex_truth 19012 in
+  let e := ex_env 19012 in
+  (forall y, parse_all (e_remote e y) = Ok (pubrates pub y)) /\
+  (forall x, pub x <> None -> x <= e_today e) /\
+  (forall x, pub x <> Some 0%Qc) /\
+  (exists s, effective true e empty_st 19007 = Ok (s, inr (19006, Qcfrac 31006 10000))) /\
+  (exists s, effective true e empty_st 18994 = Ok (s, inl LNone7)) /\
+  (exists s, effective true e empty_st 19012 = Ok (s, inl LNotYet)).
+Proof.
+  cbv zeta. split; [ | split; [ | split ] ].
+  - intros y. apply parse_all_noon.
+  - intros x H. apply restrict_some in H. cbn [ex_env e_today]. lia.
+  - intros x H. unfold restrict, ex_truth in H.
+    destruct (x <? 19012); [ | discriminate ].
+    destruct ((18995 <=? x) && (x <=? 19011) && negb ((x + 4) mod 7 =? 6) && negb ((x + 4) mod 7 =? 0)) eqn:E;
+      [ | discriminate ].
+    apply andb_true_iff in E. destruct E as [E _]. apply andb_true_iff in E. destruct E as [E _].
+    apply andb_true_iff in E. destruct E as [E1 E2]. apply Z.leb_le in E1.
+    assert (H1 : Qcfrac (12000 + x) 10000 = 0%Qc) by congruence.
+    apply Qc_eq_Qeq in H1. unfold Qcfrac, Q2Qc in H1. cbn [this] in H1.
+    rewrite !Qred_correct in H1. unfold Qeq in H1. cbn [Qnum Qden] in H1. lia.
+  - repeat split; eexists; vm_compute; reflexivity.
+Qed.
